@@ -54,6 +54,13 @@ CLAIMED["C12"] = ("DESIGN.md §4 C12",
     "checked as a codec over symbolic origins within the table limits; one insertion step after a merge. Two known findings.",
     "trusted: pysym; record stubs for protobuf CellID/TableSize (uint32 range enforced); outside: reload through real archives")
 
+CLAIMED["C06"] = ("DESIGN.md §4 C06",
+    "Real DataLists/table_string code over 1..4 lookup-list entries with symbolic distinct keys in any order (lookup finds "
+    "the entry, re-keying is injective); narrow vs wide row offsets decode identically; every stored row is reported at the "
+    "index its record declares for any subset of stored rows / header records / tile split (4 rows).",
+    "trusted: pysym; object store and protobuf records are attribute bags; outside: zip member order, compression method, "
+    "package-folder form, chunk boundaries (C05)")
+
 NOT_APPLICABLE = {}
 
 
